@@ -53,6 +53,9 @@ list_append = _op("list_append", 2)
 list_extend = _op("list_extend", 2)
 list_contains = F("list_contains", Val, Val, BoolS)
 list_index = F("list_index", Val, Val, IntS)      # least index of an element that is (or ==) the value
+# list.index(x, start, stop) over normalised bounds (VInt lo, VInt hi): is there / the least i with lo <= i < hi, 0 <= i < len
+list_contains_in = F("list_contains_in", Val, Val, Val, Val, BoolS)
+list_index_in = F("list_index_in", Val, Val, Val, Val, IntS)
 list_count = F("list_count", Val, Val, IntS)      # number of elements that are (or ==) the value
 list_count_prefix = F("list_count_prefix", Val, Val, IntS, IntS)   # ... among the first i elements (definitional)
 list_remove = _op("list_remove", 2)
@@ -96,6 +99,16 @@ DICT_OPS = {
     "str": dict(result=lambda c, a: py_str(c)),
 }
 
+def _index_bounds(c, a):
+    n = list_len(c)
+    def norm(t):
+        i = Val.i(t)
+        return z3.If(i < 0, z3.If(n + i >= 0, n + i, z3.IntVal(0)), i)
+    lo = norm(a[1])
+    hi = norm(a[2]) if len(a) > 2 else n
+    return VInt(lo), VInt(hi)
+
+
 LIST_OPS = {
     "getitem": dict(raises=[(IE, lambda c, a: z3.Not(list_idx_ok(c, a[0])))], result=lambda c, a: list_get(c, a[0])),
     "setitem": dict(raises=[(lambda c, a: list_set_exc(c, a[0], a[1]), lambda c, a: z3.Not(list_set_ok(c, a[0], a[1])))],
@@ -107,7 +120,10 @@ LIST_OPS = {
     "iadd": dict(new=lambda c, a: list_extend(c, a[0])),
     "contains": dict(result=lambda c, a: list_contains(c, a[0])),
     "remove": dict(raises=[(VE, lambda c, a: z3.Not(list_contains(c, a[0])))], new=lambda c, a: list_remove(c, a[0])),
-    "index": dict(raises=[(VE, lambda c, a: z3.Not(list_contains(c, a[0])))], result=lambda c, a: list_index(c, a[0])),
+    # list.index(x[, start[, stop]]): negative bounds are taken relative to the length and clamped at 0
+    "index": dict(raises=[(VE, lambda c, a: z3.Not(list_contains(c, a[0]) if len(a) == 1 else
+                                                   list_contains_in(c, a[0], *_index_bounds(c, a))))],
+                  result=lambda c, a: list_index(c, a[0]) if len(a) == 1 else list_index_in(c, a[0], *_index_bounds(c, a))),
     "count": dict(result=lambda c, a: list_count(c, a[0])),
     "pop": dict(raises=[(IE, lambda c, a: z3.Not(list_pop_ok(c, a[0])))], result=lambda c, a: list_pop_item(c, a[0]),
                 new=lambda c, a: list_pop_rest(c, a[0])),
@@ -766,7 +782,7 @@ class Intrinsics:
     # ------------------------------------------------------------------ names / modules / statics
     EXC_NAMES = ("Exception", "BaseException", "RuntimeError", "TypeError", "ValueError", "KeyError", "IndexError",
                  "AttributeError", "OSError", "NotImplementedError", "StopIteration", "LookupError")
-    BUILTINS = ("isinstance", "len", "min", "range", "list", "dict", "type", "id", "hasattr", "iter", "reversed",
+    BUILTINS = ("isinstance", "len", "min", "max", "range", "list", "dict", "type", "id", "hasattr", "iter", "reversed",
                 "repr", "str", "open", "bool", "int", "float", "frozenset", "tuple", "complex", "issubclass", "print",
                 "property", "sum", "NotImplemented")
 
@@ -1281,6 +1297,10 @@ class Intrinsics:
             mro = {k.name for k in t.ci.mro}
             return [(st, Bv(any(n in mro for n in names)))]
         raise Unsupported("issubclass of " + repr(t))
+
+    def b_max(self, eng, st, fn, args, kwargs):
+        a, b = as_int(args[0]), as_int(args[1])
+        return [(st, Iv(z3.If(a >= b, a, b)))]
 
     def b_min(self, eng, st, fn, args, kwargs):
         a, b = as_int(args[0]), as_int(args[1])
